@@ -9,7 +9,7 @@ From Coq Require Import Lia.
 From JV Require Import Model.Base Model.GoTime Gen.TypeGo Model.Schema Model.Value
   Model.Strconv Model.Json Model.Attr Model.SoftRes Model.Wrapper Model.Resource Model.Unmarshal
   Model.Marshal Proofs.StrconvFacts Proofs.SoftFacts Proofs.WrapperFacts Proofs.C06Facts Proofs.C06Resource
-  Proofs.C05Mixed Proofs.C14Facts Proofs.C01Facts Proofs.C01Full Proofs.C06Remarshal.
+  Proofs.C05Mixed Proofs.C14Facts Proofs.C01Facts Proofs.C01Full Proofs.C01Wrapped Proofs.C06Remarshal Proofs.C06RemarshalW.
 
 (* integers: accepted only within the declared width and signedness, stored unchanged *)
 Theorem C06_int : forall e a lit v,
@@ -154,9 +154,8 @@ Print Assumptions C06_resource_values_wrapped.
    i.e. the re-marshaled members are the same JSON values as the payload's,
    "same" meaning: they decode alike.  [env_ok_value]: the standard-library
    round trips (time.Format/Parse, base64) hold on the stored values -- oracle
-   hypotheses, as in C01.  For struct-backed types: C01_wrapped_resource_roundtrip
-   composed with C06_resource_values_wrapped by the same argument (not restated);
-   the byte-level comparison is the Go denotation oracle's. *)
+   hypotheses, as in C01.  [C06_remarshal_wrapped] below is the same for
+   struct-backed types; the byte-level comparison is the Go denotation oracle's. *)
 Theorem C06_remarshal : forall e s j r prepath reldata want,
   sch_wrapped s = [] ->
   (forall k, dec_resske j = Some k -> wf_res_type (get_type (sch_schema s) (k_type k))) ->
@@ -174,6 +173,43 @@ Theorem C06_remarshal : forall e s j r prepath reldata want,
     (forall n x, lookup n (trels t) = Some x -> same_rel (soft_get r n) (soft_get r' n)).
 Proof. exact remarshal_accepted. Qed.
 Print Assumptions C06_remarshal.
+
+(* Re-marshaling, struct-backed types ([sch_ok]; the struct registered for a
+   type carries that type's name): the struct an accepted payload fills is
+   marshaled into JSON that is accepted again and reads the same id, the same
+   value for every attribute ([same_reading]: nil stays nil) and the same
+   related IDs.  The stdlib round trips hold on what the struct reads. *)
+Theorem C06_remarshal_wrapped : forall e s j r d prepath reldata want,
+  sch_ok s ->
+  (forall k, dec_resske j = Some k ->
+     let t := get_type (sch_schema s) (k_type k) in
+     lookup (tname t) (sch_wrapped s) = Some d /\ wf_res_type t /\ struct_type_name d = tname t) ->
+  unmarshal_resource e s j = Ok r ->
+  (forall n v, res_get r n = Ok v -> env_ok_value e v) ->
+  (forall k, dec_resske j = Some k ->
+     lookup (k_type k) reldata = Some want /\
+     forall n, In n (map fst (trels (get_type (sch_schema s) (k_type k)))) -> In n want) ->
+  exists w' j' w'', r = RWrap w' /\
+    marshal_resource e (RWrap w') prepath
+      (soft_fields (mkType (w_typ w') (w_attrs w') (w_rels w'))) reldata = Ok j' /\
+    unmarshal_resource e s j' = Ok (RWrap w'') /\
+    w_typ w'' = w_typ w' /\ w_attrs w'' = w_attrs w' /\ w_rels w'' = w_rels w' /\
+    res_get (RWrap w'') "id" = res_get (RWrap w') "id" /\
+    (forall n a, In (n, a) (w_attrs w') ->
+       exists rv rv', res_get (RWrap w') n = Ok rv /\ res_get (RWrap w'') n = Ok rv' /\ same_reading rv rv') /\
+    (forall n x, In (n, x) (w_rels w') ->
+       exists v v', res_get (RWrap w') n = Ok v /\ res_get (RWrap w'') n = Ok v' /\ same_rel v v').
+Proof. exact remarshal_accepted_wrapped. Qed.
+Print Assumptions C06_remarshal_wrapped.
+
+Example c06_remarshal_wrapped_example :
+  let e := tbl_env [] [] [] [] in
+  let j := JObj [("type", jstr "things"); ("id", jstr "7");
+                 ("attributes", JObj [("n", JNull); ("a", jstr "x")]);
+                 ("relationships", JObj [("many", JObj [("data", JArr [JObj [("id", jstr "u1"); ("type", jstr "u")]])])])] in
+  sch_ok exw_sch /\ is_ok (unmarshal_resource e exw_sch j) = true /\
+  lookup "things" (sch_wrapped exw_sch) = Some exw_desc /\ struct_type_name exw_desc = "things".
+Proof. cbn zeta. split; [exact (proj1 exw_sch_ok)|]. vm_compute. repeat split. Qed.
 
 (* non-vacuity of C06_remarshal: an accepted payload meeting its hypotheses *)
 Definition c06_type : type :=
